@@ -304,3 +304,128 @@ func aggregateSingleStore(a *ssa.Alloc) (ssa.Value, bool) {
 	}
 	return val, n == 1
 }
+
+// edgeKnown: boolean v is known to be `want` on the control-flow edge pred -> blk (either already in
+// pred, or because pred branches on v and blk is the corresponding successor).
+func edgeKnown(pred, blk *ssa.BasicBlock, v ssa.Value, want bool) bool {
+	if core.KnownAt(pred, v, want) {
+		return true
+	}
+	iff, ok := pred.Instrs[len(pred.Instrs)-1].(*ssa.If)
+	if !ok || iff.Cond != v || pred.Succs[0] == pred.Succs[1] {
+		return false
+	}
+	if want {
+		return pred.Succs[0] == blk
+	}
+	return pred.Succs[1] == blk
+}
+
+// losslessPost: function fn hands its event over on every path: no path from entry to a return avoids
+// a send on a channel loaded from field chF of its receiver (a select arm counts only where that arm
+// was taken; a default / timeout arm that merely logs loses the event).
+func losslessPost(c *core.Ctx, rule string, fn *ssa.Function, chF *types.Var, what string) {
+	if fn == nil || chF == nil {
+		c.Anchor(rule, "poster of "+what)
+		return
+	}
+	isCh := func(v ssa.Value) bool {
+		_, f, ok := core.LoadedField(v)
+		return ok && f == chF
+	}
+	var sends []ssa.Instruction
+	type arm struct {
+		sel *ssa.Select
+		idx int64
+	}
+	var arms []arm
+	core.Instrs(fn, func(in ssa.Instruction) {
+		switch x := in.(type) {
+		case *ssa.Send:
+			if isCh(x.Chan) {
+				sends = append(sends, x)
+			}
+		case *ssa.Select:
+			for i, st := range x.States {
+				if st.Dir == types.SendOnly && isCh(st.Chan) {
+					arms = append(arms, arm{x, int64(i)})
+				}
+			}
+		}
+	})
+	taken := func(b *ssa.BasicBlock) bool {
+		for _, f := range core.FactsAt(b) {
+			cmp, ok := f.V.(*ssa.BinOp)
+			if !ok || cmp.Op != token.EQL || !f.True {
+				continue
+			}
+			ex, ok := cmp.X.(*ssa.Extract)
+			if !ok || ex.Index != 0 {
+				continue
+			}
+			k, ok := core.ConstInt(cmp.Y)
+			if !ok {
+				continue
+			}
+			for _, a := range arms {
+				if ex.Tuple == ssa.Value(a.sel) && k == a.idx {
+					return true
+				}
+			}
+		}
+		return false
+	}
+	r := returnAvoiding(fn.Blocks[0], func(b *ssa.BasicBlock) bool {
+		for _, s := range sends {
+			if blockHas(b, s) {
+				return true
+			}
+		}
+		// a blocking select whose only arm is the send
+		for _, a := range arms {
+			if blockHas(b, a.sel) && a.sel.Blocking && len(a.sel.States) == 1 {
+				return true
+			}
+		}
+		return taken(b)
+	})
+	pos := fn.Pos()
+	if r != nil {
+		pos = r.Pos()
+	}
+	c.Check(rule, "lossless-post:"+core.FnName(fn), pos, r == nil && len(sends)+len(arms) > 0,
+		what+": every call posts its event (a path that returns without the send - default or timeout arm - drops it silently)")
+}
+
+// iterationSkips: some path through the body of the loop headed by hdr gets back to hdr (continue) or
+// leaves the loop (break / return) without passing through block must.
+func iterationSkips(hdr, must *ssa.BasicBlock) (bool, *ssa.BasicBlock) {
+	seen := map[*ssa.BasicBlock]bool{}
+	var stack []*ssa.BasicBlock
+	for _, s := range hdr.Succs {
+		if s != hdr && inNaturalLoop(s, hdr) {
+			stack = append(stack, s)
+		}
+	}
+	for len(stack) > 0 {
+		b := stack[len(stack)-1]
+		stack = stack[:len(stack)-1]
+		if seen[b] || b == must {
+			continue
+		}
+		seen[b] = true
+		if _, isPanic := b.Instrs[len(b.Instrs)-1].(*ssa.Panic); isPanic {
+			continue
+		}
+		if len(b.Succs) == 0 {
+			return true, b // return inside the loop
+		}
+		for _, s := range b.Succs {
+			if s == hdr || !inNaturalLoop(s, hdr) {
+				return true, b
+			}
+			stack = append(stack, s)
+		}
+	}
+	return false, nil
+}
